@@ -1287,6 +1287,32 @@ namespace c14
                     o.tag("write-iterator");
                 }
             }
+            else if (c == "sstoi")
+            {
+                // stoi / stol / stoll / stod(static_string): read through c_str() (terminator inside the
+                // object also at size() == N); judged against glibc on the reference string
+                if constexpr (!port) bad = true;
+                else
+                {
+                    if (!has(r)) bad = true;
+                    else
+                    {
+                        const Str &cs = *regs[r].s;
+                        std::string ref0 = regs[r].ref.substr(0, strlen(regs[r].ref.c_str()));
+                        long want = strtol(ref0.c_str(), nullptr, 10);
+                        int a = Twin::stoi_(cs);
+                        long b = Twin::stol_(cs);
+                        long long c2 = Twin::stoll_(cs);
+                        double d = Twin::stod_(cs);
+                        if (a != (int)want || b != want || c2 != (long long)want)
+                            o.fail("stoi/stol/stoll of '" + ref0 + "' = " + std::to_string(a) + "/" + std::to_string(b) + "/" + std::to_string(c2) + " expected " + std::to_string(want));
+                        // igris_atof32 computes in binary32: integers below 2^24 are exact (its accuracy is another property's subject)
+                        if (want > -16777216 && want < 16777216 && d != (double)want) o.fail("stod of '" + ref0 + "' = " + std::to_string(d));
+                        res = "num";
+                        if (regs[r].ref.size() == N) o.tag("stoi-full");
+                    }
+                }
+            }
             else if (c == "sdel")
             {
                 if (!has(r)) bad = true;
